@@ -372,6 +372,28 @@ func rulesC17(c *Ctx) {
 		c.Check(okB, "yieldFrom:bounded", yf, nil, "iteration is bounded by the length of the index")
 	})
 
+	c.Rule("R-C17-7", "every cursor the server issues is accepted back: decodeCursor fails only when one of its decoding steps fails (no other acceptance test, e.g. a length bound that encodeCursor does not observe)", func() {
+		dc := c.Fn(pM, "", "decodeCursor")
+		g := dc.Graph()
+		n := 0
+		for i, r := range dc.Returns() {
+			if len(r.Results) != 2 || isNilIdent(r.Results[1]) {
+				continue
+			}
+			n++
+			guards := g.GuardsAt(g.VertexOf(r))
+			// the return is on the failure edge of a call's error
+			ok := hasAtom(guards, func(a Atom) bool {
+				return AtomSaysNil(a, false, func(e ast.Expr) bool {
+					o, isV := dc.ObjOf(e).(*types.Var)
+					return isV && types.Identical(o.Type(), types.Universe.Lookup("error").Type())
+				})
+			})
+			c.Check(ok, "decodeCursor:error-return#"+itoa(i), dc, r, "an error is returned only behind the failure of a decoding step (guards: %s)", atomsString(guards))
+		}
+		c.Pin("decodeCursor error returns", n, 2)
+	})
+
 	c.Import("R-C17-6", "a traversal never mixes pages of different list versions out of the client's cache: every notification-driven invalidation moves the cache generation (also when the cache is empty), and a page fetched before it is not stored afterwards", "C18", "R-C18-6", nil)
 
 	c.Rule("R-C17-5", "the client iterators yield what manual paging yields: every item of every page, following NextCursor until it is empty, stopping at the first error", func() {
